@@ -605,7 +605,12 @@ def master_dir(ctx):
         (d / "data").mkdir(exist_ok=True)
         jj, ii = np.meshgrid(np.arange(10), np.arange(12), indexing="ij")
         u = 0.1 + 0.01 * jj[None, None, :, :-1] * np.ones((1, 3, 1, 1))
-        kw = dict(imax=12, jmax=10, N=3, v=0.05, extra={"temp": 5.0})
+        # a land block next to the release positions; the files carry non-zero velocities on land as well (legal:
+        # ROMS files may hold anything there), so the land masking of the velocity matters for the trajectories
+        land = np.ones((10, 12), dtype=int)
+        land[5:7, 6] = 0
+        land[2, 7:9] = 0
+        kw = dict(imax=12, jmax=10, N=3, v=0.05, extra={"temp": 5.0}, mask=land)
         rf.write_roms(d / "forcing.nc", times=[0, 3600, 7200, 10800, 14400], u=u, **kw)
         rf.write_roms(d / "f_1.nc", times=[0, 3600], u=u, **kw)
         rf.write_roms(d / "f_2.nc", times=[7200, 10800, 14400], u=u, **kw)
@@ -751,14 +756,23 @@ def eval_sim(desc, ctx, d):
     ran = False
     if oracle is None and ok_wf and desc.get("run"):
         outs = {}
-        for name, fname in (("v1", "v1.yaml"), ("v2yaml", "v2.yaml"), ("v2toml", "v2.toml")):
+        spell = [("v1", "v1.yaml"), ("v2yaml", "v2.yaml"), ("v2toml", "v2.toml")]
+        if obs_all["v2omit"][0] == "ok" and Path("v2o.yaml").exists():
+            spell.append(("v2omit", "v2o.yaml"))  # optional sections (the grid section among them) left out
+        if S["grid_file"] is None and expansion:
+            # "omitting the grid section uses the forcing module and the first forcing file": the same run with
+            # exactly that written out
+            S2 = dict(S, grid_file=expansion[0])
+            Path("v2x.yaml").write_text(emit_yaml(tree_v2(S2, False), rng), encoding="utf-8")
+            spell.append(("v2 with the defaulted grid written out", "v2x.yaml"))
+        for name, fname in spell:
             Path("out.nc").unlink(missing_ok=True)
             msg = run_main(fname)
             outs[name] = ("failed: " + msg) if msg else read_output("out.nc")
         ran = True
         if isinstance(outs["v1"], str) and all(isinstance(o, str) for o in outs.values()):
             oracle = f"(b) generator problem, no spelling runs: {outs['v1']}"
-        for name in ("v2yaml", "v2toml"):
+        for name in [n for n, _ in spell[1:]]:
             if oracle is None and outs[name] != outs["v1"]:
                 oracle = f"(b) output of the v1 run and of the {name} run differ: {diff(outs['v1'], outs[name])}"
     accepted = all(obs_all[n][0] == "ok" for n in ("v1", "v2yaml", "v2toml"))
